@@ -12,11 +12,20 @@ use std::rc::Rc;
 
 /// A byte source that can be extended between calls.
 #[derive(Clone)]
-pub struct Growable(pub Rc<RefCell<VecDeque<u8>>>);
+/// The second field limits how many bytes one `read` call delivers (0 = no limit): a `Read` source may return short reads.
+pub struct Growable(pub Rc<RefCell<VecDeque<u8>>>, pub usize);
+impl Growable {
+    pub fn new(chunk: usize) -> Self {
+        Growable(Rc::new(RefCell::new(VecDeque::new())), chunk)
+    }
+}
 impl Read for Growable {
     fn read(&mut self, buf: &mut [u8]) -> std::io::Result<usize> {
         let mut q = self.0.borrow_mut();
-        let n = buf.len().min(q.len());
+        let mut n = buf.len().min(q.len());
+        if self.1 > 0 {
+            n = n.min(self.1);
+        }
         for b in buf.iter_mut().take(n) {
             *b = q.pop_front().unwrap();
         }
@@ -298,8 +307,10 @@ fn pic_digest(p: Option<&DecodedPicture>, full: bool) -> String {
 /// `P <opts> <op;op;...>` with ops `d:<hex>` (append bytes, decode), `a:<hex>` (append only), `n` (decode), `c` (cleanup_buffers).
 /// After every op: `<ok|err:Name|PANIC> last=<digest> ref=<digest> rem=<bits> run=<carried-over option bits>`.
 pub fn history(a: &[&str], full: bool) -> String {
-    let o = opts_of(a[0].parse().expect("opts"));
-    let src = Growable(Rc::new(RefCell::new(VecDeque::new())));
+    // opts: bit 0 Sorenson, bit 1 scalability; opts / 4 = most bytes the source delivers per read call (0 = all it has)
+    let on: u32 = a[0].parse().expect("opts");
+    let o = opts_of(on);
+    let src = Growable::new((on / 4) as usize);
     let mut reader = H263Reader::from_source(src.clone());
     let mut st = H263State::new(o);
     let mut out: Vec<String> = Vec::new();
@@ -378,7 +389,7 @@ fn decode_once(st: &mut H263State, reader: &mut H263Reader<Growable>, o: Decoder
 /// convert to RGBA.  -> `PP <decode result> [post=ok len=<n> rgba=<fnv> | post=PANIC | post=q0]`
 pub fn pipeline(a: &[&str]) -> String {
     let o = opts_of(a[0].parse().expect("opts"));
-    let src = Growable(Rc::new(RefCell::new(VecDeque::new())));
+    let src = Growable::new(0);
     src.0.borrow_mut().extend(unhex(a[1]));
     let mut reader = H263Reader::from_source(src.clone());
     let mut st = H263State::new(o);
@@ -433,7 +444,8 @@ pub fn schedule(a: &[&str]) -> String {
             let mut inst: Vec<(Growable, H263Reader<Growable>, H263State, DecoderOption, Vec<String>, bool)> = hists
                 .iter()
                 .map(|(o, _)| {
-                    let src = Growable(Rc::new(RefCell::new(VecDeque::new())));
+                    // thread t's sources deliver at most t % 4 bytes per read call (0 = no limit): same bytes, other chunking
+                    let src = Growable::new(t % 4);
                     let rd = H263Reader::from_source(src.clone());
                     (src, rd, H263State::new(opts_of(*o)), opts_of(*o), Vec::new(), false)
                 })
